@@ -320,6 +320,7 @@ func checkMain(args []string) int {
 	}
 	lastPrint := time.Now()
 	total := 0
+	retries := map[string]int{}
 	for len(queue) > 0 || inflight > 0 {
 		for len(queue) > 0 && len(idle) > 0 {
 			it := queue[len(queue)-1]
@@ -363,6 +364,19 @@ func checkMain(args []string) int {
 		}
 		if *verbose && pr.WallS > 5 {
 			fmt.Printf("  slow path %s %v: wall %.1fs solver %.1fs queries %d instrs %d\n", pr.Harness, pr.Decisions, pr.WallS, pr.SolverS, pr.Queries, pr.Instrs)
+		}
+		// a scheduled prefix that the solver now calls infeasible, or a solver that gave up on a path condition
+		// it had accepted: seen only under heavy machine load (time limits hit in a different place on
+		// re-execution).  The path is re-run, twice at most, before it counts as inconclusive.
+		if pr.Status == "abort" && (strings.Contains(pr.AbortMsg, "scheduled prefix is unsat") || strings.Contains(pr.AbortMsg, "solver unknown on path condition")) {
+			key := fmt.Sprint(r.it.h.Fn, r.it.prefix)
+			if retries[key] < 2 {
+				retries[key]++
+				a.Paths--
+				total--
+				queue = append(queue, r.it)
+				continue
+			}
 		}
 		switch pr.Status {
 		case "ok":
